@@ -43,6 +43,9 @@ def contents(rnd, span, n_rand, full16):
             return
         for v in B16:
             yield v.to_bytes(2, "big")
+        for v in env.harvest_ints():        # every integer constant of the source under test that fits the field (two's complement)
+            if -32768 <= v <= 65535:
+                yield (v & 0xFFFF).to_bytes(2, "big")
         for _ in range(n_rand):
             yield rnd.randrange(65536).to_bytes(2, "big")
         return
@@ -56,6 +59,10 @@ def contents(rnd, span, n_rand, full16):
                 bytes([24, 13, 1, 0, 0, 0]), bytes([24, 1, 1, 24, 0, 0])]
     for b in bnd:
         yield b
+    if span in (4, 8):
+        for v in env.harvest_ints():
+            if abs(v) <= 70000 or span == 8:
+                yield (v & ((1 << (8 * span)) - 1)).to_bytes(span, "big")
     for _ in range(max(64, n_rand // 8)):
         yield bytes(rnd.randrange(256) for _ in range(span))
 
